@@ -33,6 +33,9 @@ static email_fn EMAIL[4] = { is_822_email, is_5321_email, is_5322_email, is_6531
 static const char *MN[4] = { "822", "5321", "5322", "6531" };
 static const EAV_RFC RFC[4] = { EAV_RFC_822, EAV_RFC_5321, EAV_RFC_5322, EAV_RFC_6531 };
 static eav_t ALL[4], NONE[4];
+#ifndef REF_OPTS
+#define REF_OPTS 0
+#endif
 static int g_all_lp;      /* replay: try every local-part shape */
 static int g_only6531;    /* steps on the other back ends: the ASCII modes share their code with the default build, only mode 6531 is theirs */
 static int g_distinct;   /* set by a generator while the domains it emits are pairwise distinct by construction */
@@ -48,7 +51,16 @@ static int expected_class(const char *d, size_t n) {
 /* d: ASCII host name (valid per ref_domain, no root dot) */
 static void check_class(const char *sub, const char *d, size_t n) {
     if (n + 3 > 600) return;
-    if (ref_domain((const unsigned char *)d, n, 0) != R_ACC || d[n - 1] == '.') return;   /* out of the statement's scope */
+    if (ref_domain((const unsigned char *)d, n, REF_OPTS) != R_ACC || d[n - 1] == '.') return;   /* out of the statement's scope */
+#if (REF_OPTS & 4)
+    /* LABELS_ALLOW_UNDERSCORE build: the option makes '_' a label character and documents nothing else - the class of a name is still that of its last
+     * one or two labels.  Every name with at least two labels is checked again with a '_' inside its FIRST label (second character, or appended to a
+     * one-character label), unless that label takes part in a reserved two-label name. */
+    { static int in_twin; const char *dot = memchr(d, '.', n);
+      if (!in_twin && dot && n + 2 < 600 && memchr(dot + 1, '.', n - (size_t)(dot + 1 - d))) { char tw[600]; size_t fl = (size_t)(dot - d);
+          if (fl >= 3) { memcpy(tw, d, n); tw[1] = '_'; in_twin = 1; check_class("underscore-twin", tw, n); in_twin = 0; }
+          else { memcpy(tw, d, fl); tw[fl] = '_'; tw[fl + 1] = 'q'; memcpy(tw + fl + 2, d + fl, n - fl); in_twin = 1; check_class("underscore-twin", tw, n + 2); in_twin = 0; } } }
+#endif
     /* the local part must not matter: three shapes (one with dots, one quoted with a dot and an '@'); single-label domains get all of them,
      * the others rotate through them */
     static const char *const LP[3] = { "x", "first.last", "\"q.r@s\".t" };
